@@ -365,7 +365,9 @@ fn multiset_diff<K: Ord + Clone + std::fmt::Debug>(exp: &BTreeMap<K, u64>, got: 
 }
 
 /// Full read-back of column `c` of `db` (already opened with options `o` for that column)
-/// against `data`. `count_rc`: compare reference counts in the iteration (the column counts).
+/// against `data`: every key, every deleted key, and the complete iteration (btree: ordered
+/// keys and values; hash: multiset of values, with their counts when the column counts;
+/// multitree: every node of every tree). `removed` = keys that must be absent.
 /// Returns the number of oracle evaluations.
 pub fn verify_col(
 	db: &Db,
